@@ -397,6 +397,9 @@ type vConnRun struct {
 	uc0       int // UnLockCount before the action in progress
 	orderBad  bool
 	usedNewDb bool
+	// reg: who a client id belongs to, by the script alone: the last connection that announced it, until that connection
+	// closes or announces another id
+	reg map[int]*vConnC
 }
 
 func (x *vConnRun) report(sig, what string) {
@@ -570,6 +573,10 @@ func (x *vConnRun) init(c *vConnC, cid int) {
 			ob = fmt.Sprintf("i%d", f.itype)
 		}
 	}
+	if c.inited && x.reg[c.cid] == c {
+		delete(x.reg, c.cid)
+	}
+	x.reg[cid] = c
 	c.inited, c.cid = true, cid
 	c.announced = append(c.announced, cid)
 	x.ev(fmt.Sprintf("i %d %d", c.idx, cid), ob)
@@ -794,6 +801,9 @@ func (x *vConnRun) follow(ctx byte, reqTok int, reqConn *vConnC) {
 		} else if owner.kind == 't' && owner.blocked == tok {
 			owner.blocked = 0
 		}
+		if !ok {
+			x.droppedDespiteReconnect(tok, owner, "the reply the engine produced for a request")
+		}
 		x.ev(fmt.Sprintf("d %d", tok), ob)
 	}
 	if again {
@@ -803,6 +813,25 @@ func (x *vConnRun) follow(ctx byte, reqTok int, reqConn *vConnC) {
 	x.settle()
 	x.unexpected()
 	x.check()
+}
+
+// reconnected: the open connection that, by the script, holds the non-zero client id closed connection c announced last
+// (nil if none, or if its client end is gone: a write to it fails)
+func (x *vConnRun) reconnected(c *vConnC) *vConnC {
+	if !c.srvClosed || !c.inited || c.cid == 0 {
+		return nil
+	}
+	r := x.reg[c.cid]
+	if r == nil || r == c || r.srvClosed || r.cliGone || r.isDone() {
+		return nil
+	}
+	return r
+}
+
+func (x *vConnRun) droppedDespiteReconnect(tok int, c *vConnC, what string) {
+	if r := x.reconnected(c); r != nil {
+		x.report("C18:reply-dropped-despite-reconnect", fmt.Sprintf("%s (token %d) of closed connection %d, which announced client id %d, was dropped although open connection %d announced the same id (and still holds it)", what, tok, c.idx, c.cid, r.idx))
+	}
 }
 
 // routed: monitor for the routing clause — the receiver is the issuer, or announced the id the issuer announced
@@ -846,6 +875,19 @@ func (x *vConnRun) unexpected() {
 func (x *vConnRun) check() {
 	if x.dead != "" {
 		return
+	}
+	// an open connection that announced an id nobody announced after it must be found under that id
+	for cid, r := range x.reg {
+		if r.srvClosed || r.cliGone || r.isDone() || r.bp == nil {
+			continue
+		}
+		s := x.v.slock
+		s.clientsGlock.Lock()
+		sp, ok := s.clients[vId16(cid)]
+		s.clientsGlock.Unlock()
+		if !ok || sp != ServerProtocol(r.bp) {
+			x.report("C18:registration-lost", fmt.Sprintf("open connection %d announced client id %d and no later connection announced it, but SLock.clients[%d] is %v", r.idx, cid, cid, map[bool]string{true: "another protocol", false: "empty"}[ok]))
+		}
 	}
 	var sc *vConnScan
 	for _, c := range x.conns {
@@ -1203,6 +1245,9 @@ func (x *vConnRun) closeStateDigest(c *vConnC) string {
 // return the canonical observation W[tok:res,…].
 func (x *vConnRun) closeEvidence(c *vConnC, pre vConnScan, preHolds map[int]bool) string {
 	c.srvClosed = true
+	if c.inited && x.reg[c.cid] == c {
+		delete(x.reg, c.cid)
+	}
 	if c.panicked != "" {
 		x.dead = "panic"
 		x.report("C18:close-panic", fmt.Sprintf("the connection goroutine of connection %d panicked: %s", c.idx, c.panicked))
@@ -1324,6 +1369,9 @@ func (x *vConnRun) closeEvidence(c *vConnC, pre vConnScan, preHolds map[int]bool
 			}
 		} else if w.typ == "Lw" && sc.holds[w.tok] > 0 {
 			res = "genbug-imm"
+		}
+		if res == "drop" && c.kind == 'b' {
+			x.droppedDespiteReconnect(w.tok, c, "the reply of a will command")
 		}
 		if w.self {
 			res = "s" + res
@@ -1803,7 +1851,7 @@ func vConnCensus(v *vSeq) vConnBase {
 // vConnCase runs one generated lifetime on v; returns false if v must be discarded
 func vConnCase(v *vSeq, out *vOut, seed int64, idx int, risky bool, pendFile string) bool {
 	x := &vConnRun{v: v, out: out, r: rand.New(rand.NewSource(seed*1000003 + int64(idx))), idx: idx, risky: risky, toks: map[int]*vConnTok{}, live: map[int]byte{},
-		seen: map[string]bool{}, nextKey: 1000 * (idx + 1), nextTok: 1, pendFile: pendFile}
+		seen: map[string]bool{}, reg: map[int]*vConnC{}, nextKey: 1000 * (idx + 1), nextTok: 1, pendFile: pendFile}
 	base := vConnCensus(v)
 	done := make(chan struct{})
 	bad := ""
@@ -2018,6 +2066,41 @@ func init() {
 			h := x.request(n, 'L', x.newKey(), 0, 0, 60)
 			x.toks[h].long = true
 			x.close(n, 'c')
+		},
+		// 9: reconnect BEFORE the old connection is torn down (half-open socket): the new connection announces the id, then the
+		// server ends the old one; the old connection's will reply and the timeout of its queued request go to the new one
+		func(x *vConnRun) {
+			o := x.open('b', false)
+			a := x.open('b', false)
+			x.init(a, 7)
+			h := x.request(o, 'L', x.newKey(), 0, 0, 60)
+			x.toks[h].long, x.toks[h].pin = true, true
+			x.request(a, 'L', x.toks[h].key, 0, 3, 60)
+			w := &vConnWill{typ: "L0", imm: true, key: x.newKey(), tok: x.nextTok}
+			x.nextTok++
+			x.will(a, w)
+			b := x.open('b', false)
+			x.init(b, 7)
+			x.close(a, 's')
+			for i := 0; i < 5 && x.dead == ""; i++ {
+				x.tick()
+			}
+		},
+		// 10: the old connection closes first, then the client reconnects under the same id; the timeout of the request it
+		// left queued goes to the new connection
+		func(x *vConnRun) {
+			o := x.open('b', false)
+			a := x.open('b', false)
+			x.init(a, 7)
+			h := x.request(o, 'L', x.newKey(), 0, 0, 60)
+			x.toks[h].long, x.toks[h].pin = true, true
+			x.request(a, 'L', x.toks[h].key, 0, 4, 60)
+			x.close(a, 'c')
+			b := x.open('b', false)
+			x.init(b, 7)
+			for i := 0; i < 6 && x.dead == ""; i++ {
+				x.tick()
+			}
 		})
 }
 
